@@ -702,3 +702,127 @@ func TestC08MultiStream(t *testing.T) {
 		}
 	}
 }
+
+// TestC08AfterLimit: what the application does after a "read limited" error is to read
+// again (a retry loop, the next iteration of its read loop). The message that exceeded the
+// limit was not read to its end, so its remaining bytes are still in the stream: a receiver
+// that carries on takes them for frames. The sender chooses those bytes - here they spell a
+// complete text frame - so a message nobody sent would be delivered (found as defect D21).
+// Enumerated: role x limit x fragmentation x read API; the tail of the oversize message is
+// valid frames for the receiving role. After the failed read nothing may be delivered.
+func TestC08AfterLimit(t *testing.T) {
+	rec := evid.For("C08")
+	type alCase struct {
+		Client bool
+		Limit  int64
+		Frags  int
+		API    string
+	}
+	for _, client := range []bool{true, false} {
+		for _, limit := range []int64{c08Default, 0, 1, 125, 126, 4096, 65536} {
+			for _, frags := range []int{1, 3} {
+				for _, api := range []string{"read", "reader-1", "reader-big", "wsjson"} {
+					c := alCase{client, limit, frags, api}
+					var msg string
+					synctest.Test(t, func(t *testing.T) {
+						e := newEnv(t)
+						defer e.Teardown()
+						lc, err := e.open(connSpec{Client: client})
+						if err != nil {
+							msg = "handshake: " + err.Error()
+							return
+						}
+						lc.Peer.start(e)
+						if limit != c08Default {
+							lc.C.SetReadLimit(limit)
+						}
+						L := int(effLimit(limit))
+						// the frames a receiver finds when it reads on behind the limit: for a server they are masked with a zero key
+						hid := ref.Frame{Fin: true, Opcode: ref.OpText, Payload: []byte(`"hidden"`), Masked: !client}.Encode()
+						var tail []byte
+						for i := 0; i < 4; i++ {
+							tail = append(tail, hid...)
+						}
+						// L+1 bytes are handed out at most; the reader may have taken up to a buffer more off the wire
+						body := append(bytes.Repeat([]byte{' '}, L+1), tail...)
+						per := len(body)/frags + 1
+						for j, off := 0, 0; j < frags; j++ {
+							end := min(off+per, len(body))
+							if j == frags-1 {
+								end = len(body)
+							}
+							f := ref.Frame{Fin: j == frags-1, Payload: body[off:end], Masked: !client} // zero key: the wire shows the bytes as they are
+							if j == 0 {
+								f.Opcode = ref.OpText
+							}
+							lc.Peer.sendRaw(f.Encode())
+							off = end
+						}
+						lc.Peer.send(ref.Frame{Fin: true, Opcode: ref.OpText, Payload: []byte(`"a later message"`)})
+						var first error
+						var after []string
+						d := e.Call(func() {
+							ctx := context.Background()
+							readOne := func() (string, error) {
+								switch api {
+								case "read":
+									_, b, err := lc.C.Read(ctx)
+									return string(b), err
+								case "wsjson":
+									var v any
+									err := wsjson.Read(ctx, lc.C, &v)
+									return fmt.Sprint(v), err
+								}
+								_, r, err := lc.C.Reader(ctx)
+								if err != nil {
+									return "", err
+								}
+								buf := make([]byte, 1)
+								if api == "reader-big" {
+									buf = make([]byte, 1<<17)
+								}
+								var all []byte
+								for {
+									n, err := r.Read(buf)
+									all = append(all, buf[:n]...)
+									if err == io.EOF {
+										return string(all), nil
+									}
+									if err != nil {
+										return string(all), err
+									}
+								}
+							}
+							_, first = readOne()
+							for i := 0; i < 3; i++ {
+								rctx, cancel := context.WithTimeout(ctx, 20*time.Second)
+								ctx = rctx
+								got, err := readOne()
+								cancel()
+								ctx = context.Background()
+								if err == nil {
+									after = append(after, got)
+								}
+							}
+						})
+						if !within(d, 200*time.Second) {
+							msg = "reads did not return"
+							return
+						}
+						if first == nil {
+							msg = fmt.Sprintf("a message of %d bytes was reported complete under a read limit of %d", len(body), L)
+							return
+						}
+						if len(after) > 0 {
+							msg = fmt.Sprintf("the read of an oversize message failed (%v) and a later read delivered %q: the unread rest of the oversize message was taken for frames (or reading simply went on after the connection was to be closed with status 1009)", first, after)
+						}
+					})
+					rec.Case(true, fmt.Sprintf("afterlimit|%+v", c), "read-again-after-the-limit-error")
+					if msg != "" {
+						failCase(t, "C08", c, "%s", msg)
+					}
+				}
+			}
+		}
+	}
+}
